@@ -250,6 +250,10 @@ impl Run {
     pub fn want_sample(&self) -> bool {
         self.sh.lock().unwrap().samples.len() < 8
     }
+    /// the exploration was cut short on purpose (violations already found): not exhaustive
+    pub fn machinery_note_incomplete(&self) {
+        self.expired.store(true, Ordering::Relaxed);
+    }
     pub fn machinery_error(&self, s: String) {
         self.sh.lock().unwrap().machinery_errors.push(s);
     }
